@@ -887,7 +887,8 @@ theorem c02_stepFollower_cases {r r' : Raft} {m : Message} {e : Option RaftError
 /-- `step_candidate` (raft.rs:2320) of a candidate or pre-candidate: nothing; or a message of the
 leader of this term (`become_follower(m.term, m.from)`, then the follower's handler); or a response of
 the right kind — `MsgRequestVoteResponse` for a candidate, `MsgRequestPreVoteResponse` for a
-pre-candidate — is polled -/
+pre-candidate — is polled; since fix F16 a pre-candidate polls a *granted* pre-vote response only if
+it carries the term of this pre-campaign, `m.term = r.term + 1` (any other grant: nothing) -/
 theorem c02_stepCandidate_cases {r r' : Raft} {m : Message} {e : Option RaftError}
     (hs : r.state = .candidate ∨ r.state = .preCandidate)
     (h : r.stepCandidate m = .ok (r', e)) :
@@ -895,7 +896,8 @@ theorem c02_stepCandidate_cases {r r' : Raft} {m : Message} {e : Option RaftErro
     ((m.msgType = .msgAppend ∨ m.msgType = .msgHeartbeat ∨ m.msgType = .msgSnapshot) ∧
       r.term = m.term ∧ Frame (r.becomeFollower m.term m.frm) r') ∨
     (((r.state = .candidate ∧ m.msgType = .msgRequestVoteResponse) ∨
-      (r.state = .preCandidate ∧ m.msgType = .msgRequestPreVoteResponse)) ∧
+      (r.state = .preCandidate ∧ m.msgType = .msgRequestPreVoteResponse ∧
+        (m.reject = true ∨ m.term = r.term + 1))) ∧
      ∃ r2 res, r.poll m.frm m.msgType (!m.reject) = .ok (r2, res) ∧ r2.maybeCommitByVote m = .ok r') := by
   have hbf : ∀ l, (r.becomeFollower m.term l).state = .follower := fun l => rfl
   unfold Raft.stepCandidate at h
@@ -932,6 +934,9 @@ theorem c02_stepCandidate_cases {r r' : Raft} {m : Message} {e : Option RaftErro
     split at h
     · cases h; exact Or.inl rfl
     · rename_i hc
+      split at h
+      · cases h; exact Or.inl rfl
+      rename_i hf
       right; right
       rw [Res.bind_eq_ok_iff] at h
       obtain ⟨⟨r1, res⟩, h1, h2⟩ := h
@@ -942,11 +947,19 @@ theorem c02_stepCandidate_cases {r r' : Raft} {m : Message} {e : Option RaftErro
       refine ⟨?_, r1, res, h1, h3⟩
       rcases hs with hs | hs
       · exact absurd (Or.inr ⟨hs, by rw [hm]; decide⟩) hc
-      · exact Or.inr ⟨hs, hm⟩
+      · refine Or.inr ⟨hs, hm, ?_⟩
+        cases hrj : m.reject
+        · right
+          apply Decidable.byContradiction
+          intro hne
+          exact hf ⟨hs, hrj, fun hh => hne hh.2⟩
+        · exact Or.inl rfl
   · rename_i hm
     split at h
     · cases h; exact Or.inl rfl
     · rename_i hc
+      split at h
+      · cases h; exact Or.inl rfl
       right; right
       rw [Res.bind_eq_ok_iff] at h
       obtain ⟨⟨r1, res⟩, h1, h2⟩ := h
